@@ -37,6 +37,11 @@ fn main() {
         mon::c07::miri_main(&args);
         return;
     }
+    if property == "C09-vclock-history" {
+        api::install_panic_hook();
+        mon::c09::vclock_history_child(args[2].parse().expect("base timestamp"), &args[3]);
+        return;
+    }
     if property == "C09-vclock" {
         // child of the virtual-clock leg (runs under LD_PRELOAD=shim/libvclock.so)
         api::install_panic_hook();
